@@ -39,7 +39,7 @@ Qed.
 Lemma flag_sound_witness_now :
   exists a, resolve (build w_ir) w_r0 (TCreateBlock 100 (BPAfter 1) []) = Some a /\
             sets_flag cir_sem true a (build w_ir) w_r0 = true.
-Proof. eexists. split; vm_compute; reflexivity. Qed.
+Proof. eexists. split; [vm_compute; reflexivity|]. vm_compute. reflexivity. Qed.
 
 (* Witness 2: the same call inside a walk.  Op 1 acts once its region has two blocks; op 2 creates
    that block.  The walk visits 1 then 2, no flag is ever set: it returns False although the IR
@@ -179,7 +179,7 @@ Proof.
     + exfalso. apply H. reflexivity.
     + exfalso. apply H2. apply in_or_app. auto.
     + apply in_app_or in H2. destruct H2 as [H2|H2]; [contradiction|].
-      apply in_map_iff in H2. destruct H2 as (n & <- & Hn). exists n. split; auto. left. reflexivity.
+      apply in_map_iff in H2. destruct H2 as (n & <- & Hn). exists n. split; [exact Hn | left; reflexivity].
   - destruct Hc as [H|[[H1 H2]|[H1 H2]]].
     + exfalso. apply H. reflexivity.
     + left. destruct (Nat.eq_dec o0 o) as [E|E]; auto.
